@@ -15,6 +15,10 @@ FFI_RULE = ("every #[uniffi::export] function of crates/mdk-uniffi called on rea
 
 def ffi_part(ob, facts, failures, coverage, tier, seed):
     from . import ffieng as F
+    # the theorems of the binding layer live in their own module: attribute a broken proof to ITS theorem
+    # (Props/C06.lean only restates them) and audit their axioms directly
+    C.lake_build(ob, ["MdkVerif.Props.C06Ffi"], exe=False)
+    C.axioms_audit(ob, "MdkVerif.Props.C06Ffi")
     cases = F.load_traces(F.corpus_paths(PROP)) + F.generate(seed, tier)
     F.run(cases)
     corr, compared, decided = F.correspondence(cases, facts)
